@@ -115,6 +115,14 @@ def step (c impl : String) : String :=
     let f := parseFilter w.req.user
     let outs := impl.splitOn " | "
     if outs.all (· = "E invalid") then ok "request-rejected" false
+    else if w.aux.get "lug" false then
+      -- the LU-G case: breadth limit 1, short deadline
+      let a := listUsers w f cs.maxDepth {}
+      let want := renderUsers a.users
+      if impl = want then ok "lug-complete" true
+      else if impl.startsWith "DEADLINE " then
+        specViol s!"LU-G ListUsers blocks until its deadline when the breadth limit is below the number of operands of a union/intersection and then returns a partial result without error: returned {(impl.drop 9).toString} instead of {(want.drop 2).toString}"
+      else modelDiff want
     else
     let a1 := listUsers w f cs.maxDepth { lastWins := true }
     let a2 := listUsers w f cs.maxDepth { lastWins := false }
